@@ -63,7 +63,11 @@ impl VIOT {
 
         // The header also contains a count of the number of nodes, so the
         // sum needs an additional '1' added to it.
-        self.checksum.add(1);
+        // node count (16-bit, emitted from nodes.len()); this runs before the push
+        let old_count = self.nodes.len() as u16;
+        let new_count = old_count + 1;
+        self.checksum.delete(old_count.as_bytes());
+        self.checksum.append(new_count.as_bytes());
 
         self.header.checksum = self.checksum.value();
     }
